@@ -72,6 +72,12 @@ Theorem C10_scripts_match_source :
   forallb (fun t => match t with (s1, s2, src) => ecmds_eqb s1 src && ecmds_eqb s2 src end) effect_instances = true.
 Proof. exact scripts_match_source. Qed.
 
+(* T: the threaded key of C10_rng_state_threaded is the one the source stores: the first component of
+   `source_key_depth a` nested jax.random.split of the old key (translated from each quantizer's apply) *)
+Theorem C10_next_key_is_source_depth : forall a k, is_agg a = true ->
+  next_key a k = Nat.iter (source_key_depth a) split0 k.
+Proof. exact next_key_is_source_depth. Qed.
+
 (* T: what for_each_client's jit backend, tree_util's in-place helpers and the optax wrapper donate
    (the scripts are built from these translated constants) *)
 Theorem C10_library_donations :
@@ -115,3 +121,4 @@ Print Assumptions C10_rng_state_threaded.
 Print Assumptions C10_source_effects_wf.
 Print Assumptions C10_scripts_match_source.
 Print Assumptions C10_library_donations.
+Print Assumptions C10_next_key_is_source_depth.
